@@ -25,11 +25,13 @@ EdgeShapes == [rule : {"R"}, ins : InSeqs, imp : {<<>>}, ord : {<<>>},
                outs : {<<p>> : p \in Built}, iouts : {<<>>} \cup {<<p>> : p \in Built}]
 Manifest(es) == [rules |-> <<"R">>, dup_rules |-> <<>>, pools |-> <<"console">>, edges |-> es,
                  edge_pools |-> [i \in DOMAIN es |-> ""], defaults |-> <<>>, errors |-> <<>>]
-SmallGraphs == UNION {{Manifest(es) : es \in [1..n -> EdgeShapes]} : n \in 1..NE}
+\* (parameterised on purpose: TLC evaluates zero-arity constant definitions eagerly, and a UNION of
+\* tens of thousands of records is quadratic there)
+GraphsOfSize(n) == {Manifest(es) : es \in [1..n -> EdgeShapes]}
 
 VARIABLES M, built
 vars == <<M, built>>
-Init == M \in SmallGraphs /\ built = {}
+Init == \E n \in 1..NE : \E es \in [1..n -> EdgeShapes] : M = Manifest(es) /\ built = {}
 Run(e) == /\ Ready(M, Exists, built, e)
           /\ built' = built \cup {e}
           /\ UNCHANGED M
@@ -55,5 +57,7 @@ ReachClosed ==
         IN /\ Producers(M, p) \subseteq R
            /\ \A e \in R : \A q \in Ins(M, e) : Producers(M, q) \subseteq R
 
-EmitFamily == TLCGet("stats").diameter >= 0 /\ JsonSerialize("graphs.json", SetToSeq(SmallGraphs))
+RECURSIVE GraphSeq(_)
+GraphSeq(n) == IF n = 0 THEN <<>> ELSE GraphSeq(n - 1) \o SetToSeq(GraphsOfSize(n))
+EmitFamily == TLCGet("stats").diameter >= 0 /\ JsonSerialize("graphs.json", GraphSeq(NE))
 =============================================================================
